@@ -169,9 +169,9 @@ def build_audit(cfg):
     problems, theorems, failed_out = [], {}, ""
     for mod in cfg["audit_modules"]:
         rc, out = run(["lake", "build", mod], cwd=LEAN)
-        for m in re.finditer(r"'([^']+)' depends on axioms: \[([^\]]*)\]", out):
+        for m in re.finditer(r"'(\S+?)' depends on axioms: \[([^\]]*)\]", out):
             theorems[m.group(1)] = {a.strip() for a in m.group(2).split(",") if a.strip()}
-        for m in re.finditer(r"'([^']+)' does not depend on any axioms", out):
+        for m in re.finditer(r"'(\S+?)' does not depend on any axioms", out):
             theorems[m.group(1)] = set()
         if rc != 0:
             errs = [l.strip() for l in out.splitlines() if re.search(r"\berror\b", l)]
@@ -181,9 +181,9 @@ def build_audit(cfg):
         if rc == 0 and not theorems:
             src = os.path.join(LEAN, mod.replace(".", "/") + ".lean")
             rc2, out2 = run(["lake", "env", "lean", src], cwd=LEAN)
-            for m in re.finditer(r"'([^']+)' depends on axioms: \[([^\]]*)\]", out2):
+            for m in re.finditer(r"'(\S+?)' depends on axioms: \[([^\]]*)\]", out2):
                 theorems[m.group(1)] = {a.strip() for a in m.group(2).split(",") if a.strip()}
-            for m in re.finditer(r"'([^']+)' does not depend on any axioms", out2):
+            for m in re.finditer(r"'(\S+?)' does not depend on any axioms", out2):
                 theorems[m.group(1)] = set()
     return theorems, problems, failed_out
 
